@@ -236,6 +236,9 @@ func (g *builder) message(depth int) []byte {
 		ids := make([]int64, n)
 		for i := range ids {
 			ids[i] = g.id()
+			if i > 0 && r.Chance(30) {
+				ids[i] = ids[i-1] // the same id acknowledged twice in one msgs_ack
+			}
 		}
 		return enc(&mt.MsgsAck{MsgIDs: ids})
 	case 6:
@@ -253,6 +256,10 @@ func (g *builder) message(depth int) []byte {
 		for i := 0; i < n; i++ {
 			body := g.message(depth + 1)
 			c.Messages = append(c.Messages, proto.Message{ID: g.id(), SeqNo: r.Intn(100), Bytes: len(body), Body: body})
+			// the same service message again (duplicate pong / ack / result / bad_msg for one id)
+			for r.Chance(30) {
+				c.Messages = append(c.Messages, proto.Message{ID: g.id(), SeqNo: r.Intn(100), Bytes: len(body), Body: body})
+			}
 		}
 		return enc(&c)
 	case 9:
